@@ -40,6 +40,7 @@ func errClass(err error) string {
 type ref struct {
 	b      []byte
 	pos    int64
+	anchor int64 // position left by the last write / seek (reads do not move it)
 	broken bool // a divergence was already reported for this case
 }
 
@@ -160,6 +161,7 @@ func exec(c vh.Case, o *vh.Out) {
 			}
 			s.ref.writeAt(data, off)
 			s.ref.pos = off + int64(len(data))
+			s.ref.anchor = s.ref.pos
 			o.Emit("n=%d err=%s", n, errClass(err))
 		case "seek":
 			off, whence := int64(vh.Atoi(f[1])), vh.Atoi(f[2])
@@ -196,6 +198,7 @@ func exec(c vh.Case, o *vh.Out) {
 					s.fail(sig, "Seek(%d,%d) = (%d,%v), file model says %d (size %d, pos %d)", off, whence, got, err, target, len(s.ref.b), s.ref.pos)
 				}
 				s.ref.pos = target
+				s.ref.anchor = target
 				if target > int64(len(s.ref.b)) {
 					o.Kind("seek-past-end")
 					s.ref.resize(target)
@@ -237,6 +240,12 @@ func exec(c vh.Case, o *vh.Out) {
 			o.Kind("trunc")
 			if err != nil {
 				s.fail("trunc-error", "Truncate(%d): %v", size, err)
+			}
+			// cutting below an offset that was only reached by reading takes it back to
+			// max(anchor, size); an offset left by a write or seek stays (see Spec.lean)
+			if size < int64(len(s.ref.b)) && s.ref.pos > size {
+				o.Kind("trunc-below-pos")
+				s.ref.pos = max(s.ref.anchor, size)
 			}
 			s.ref.resize(size)
 			o.Emit("err=%s", errClass(err))
@@ -348,6 +357,21 @@ func gen(r *vh.Rand, tier string, n int, emit func(vh.Case)) {
 				default:
 					return r.Intn(size + 1)
 				}
+			}
+			if r.Chance(1, 10) {
+				// Truncate below the current position, then Write (position reached by reading or by writing)
+				if r.Bool() {
+					c.Ops = append(c.Ops, fmt.Sprintf("seek %d 0", r.Intn(size+1)), fmt.Sprintf("read %d", r.Range(1, 12)))
+				} else {
+					d := data()
+					c.Ops = append(c.Ops, "write "+d)
+					size += len(d) / 2
+				}
+				t := r.Intn(size/2 + 1)
+				d := data()
+				c.Ops = append(c.Ops, fmt.Sprintf("trunc %d", t), "write "+d, "seek 0 1", "getnode")
+				size = t + len(d)/2 + 12
+				continue
 			}
 			switch r.Intn(12) {
 			case 0, 1:
